@@ -1,6 +1,7 @@
 package main
 
 import (
+	"sync/atomic"
 	"sync"
 	"math/rand/v2"
 	"net/http"
@@ -344,6 +345,10 @@ func c13HTTP(c *Ctx) {
 func c13FloodConc(c *Ctx) {
 	c.Cases("floodconc", c.N(80, 2000), func(i int, r *rand.Rand) {
 		short := rateSpec{time.Second, int64(1 + r.IntN(3)), int64(1 + r.IntN(3))}
+		twoAmounts := i%2 == 1 // half of the goroutines ask for 2 units: their advertised wait is twice as long
+		if twoAmounts && short.Burst < 2 {
+			short.Burst = 2
+		}
 		long := rateSpec{pick(r, []time.Duration{time.Minute, time.Hour}), int64(50 + r.IntN(100)), int64(50 + r.IntN(100))}
 		rs := []rateSpec{short, long}
 		freeze(baseTime.Add(time.Duration(r.Int64N(1e9))))
@@ -363,14 +368,21 @@ func c13FloodConc(c *Ctx) {
 		}
 		A, _ := mk()
 		B, _ := mk()
-		serve := func(tl *ratelimit.TokenLimiter, amt int64) int {
+		serve2 := func(tl *ratelimit.TokenLimiter, amt int64) (int, string) {
 			req := httptest.NewRequest("GET", "http://x.test/", nil)
 			req.Header.Set("X-Src", "same")
 			req.Header.Set("X-Amt", strconv.FormatInt(amt, 10))
 			rec := httptest.NewRecorder()
 			tl.ServeHTTP(rec, req)
-			return rec.Code
+			return rec.Code, rec.Header().Get("X-Retry-In")
 		}
+		serve := func(tl *ratelimit.TokenLimiter, amt int64) int {
+			code, _ := serve2(tl, amt)
+			return code
+		}
+		tpt := time.Duration(int64(short.Period) / short.Average)
+		var wrongDelay atomic.Int64
+		var wrongSample sync.Map
 		// exhaust the short-period bucket on both twins
 		for k := int64(0); k < short.Burst; k++ {
 			serve(A, 1)
@@ -385,9 +397,19 @@ func c13FloodConc(c *Ctx) {
 			go func(g int) {
 				defer wg.Done()
 				<-start
+				amt := int64(1)
+				if twoAmounts && g%2 == 1 {
+					amt = 2
+				}
+				want := (time.Duration(amt) * tpt).String()
 				for k := 0; k < per; k++ {
-					if serve(B, 1) != http.StatusTooManyRequests {
+					code, retry := serve2(B, amt)
+					if code != http.StatusTooManyRequests {
 						admitted.Store(g*100000+k, true)
+					} else if retry != want {
+						// the bucket is empty and the clock stands still: the wait for amt units is amt token times
+						wrongDelay.Add(1)
+						wrongSample.Store(amt, retry)
 					}
 				}
 			}(g)
@@ -400,6 +422,12 @@ func c13FloodConc(c *Ctx) {
 		admitted.Range(func(_, _ any) bool { bad++; return true })
 		if bad > 0 {
 			c.Violation("floodconc/admitted", sfmt("rates %v: %d of %d concurrent requests were admitted although the 1s bucket was empty", rs, bad, G*per), nil)
+			return
+		}
+		if n := wrongDelay.Load(); n > 0 {
+			var ex []string
+			wrongSample.Range(func(k, v any) bool { ex = append(ex, sfmt("amount %v told %v", k, v)); return true })
+			c.Violation("floodconc/advertised-delay", sfmt("rates %v: empty 1s bucket at a frozen instant, %d goroutines rejected concurrently: %d of %d rejections advertised a wait that is not amount x %v (%v): a retry after that wait is not admitted", rs, G, n, G*per, tpt, ex), nil)
 			return
 		}
 		// let the short bucket refill completely, then both twins must drain the same number of single tokens
